@@ -61,7 +61,11 @@ class SDtype(SV):
         if name == "itemsize":
             return self.itemsize
         if name == "char":
-            return Opaque("dtype.char")
+            # one-character type code; the lattice holds numeric dtypes only, whose codes are none
+            # of the string / object / void codes the package tests for ("S", "a", "U", "O", "V")
+            c = z3.String(it.ctx.fresh_name("dtype_char"))
+            it.assume(z3.And(z3.Length(c) == 1, *[c != z3.StringVal(x) for x in "SaUOVMm"]))
+            return c
         if name == "type":
             return Intrinsic("dtype.type", lambda it_, x: const_float(x))
         raise Unsupported("dtype.%s" % name)
